@@ -269,7 +269,7 @@ static void fam_aead()
 					{
 						size_t clen = std::min(c, lens[li] - k * c);
 						// long messages: the chunks around every carry of the index and the two ends
-						bool sel = !longmsg || k < 2 || k + 2 >= nchunks || ((k + 2) % 256) < 4 || ((k + 2) % 65536) < 4;
+						bool sel = !longmsg || k < 2 || k + 2 >= nchunks || (nchunks <= 1000 && ((k + 2) % 256) < 4) || ((k + 2) % 65536) < 4;   // very long messages: only the carry into the third octet
 						if (!sel)
 						{
 							off += clen + 16;
@@ -280,7 +280,8 @@ static void fam_aead()
 							if (cand[j] < clen && (j == 0 || cand[j] != cand[j - 1]))
 								pos.push_back(off + cand[j]);
 						for (size_t j = 0; j < 16; j++)
-							pos.push_back(off + clen + j);
+							if (nchunks <= 1000 || j == 0 || j == 15)      // very long messages (a decryption costs a second): first and last tag octet
+								pos.push_back(off + clen + j);
 						off += clen + 16;
 					}
 					for (size_t j = 0; j < 16; j++)
